@@ -2,6 +2,7 @@ import SciVerif.Tie.C12Sem
 import SciVerif.Props.C12
 import SciVerif.Tie.Pins
 /-! Tie A obligations for C12 on the current source. -/
+-- PIN-ALSO: Components.NewMapToTags Components.MapToTags_In Components.MapToTags_Out
 namespace SciVerif.Tie
 
 /-- every syntactic access to the watched shared fields is under the object's lock, or in a
@@ -10,6 +11,7 @@ theorem generated_discipline : disciplineOk = true := by decide
 
 /-- the only run-phase code that mutates a received IP's record is the listed finding F12 -/
 theorem generated_racy_sites_known : racySites.all (["Components.MapToTags.Run"].contains ·) = true := by decide
+
 
 
 
@@ -37,7 +39,10 @@ theorem pinned_skeletons_c12 :
      ("Components.FileGlobber_Run", "ade3767bb72e9c64"),
      ("Components.FileSplitter_Run", "5b56a840c637c735"),
      ("Components.IPSelectorSync_Run", "bdc706bc9ab92453"),
+     ("Components.MapToTags_In", "338c289a3d0957ee"),
+     ("Components.MapToTags_Out", "00960848d5f3d1bb"),
      ("Components.MapToTags_Run", "639dd3a11150ec10"),
+     ("Components.NewMapToTags", "8aee09683e838d92"),
      ("Components.StreamToSubStream_Run", "3877054697bb0416"),
      ("Scipipe.#decls", "08e57e98702ecd70"),
      ("Scipipe.NewTask", "95298f03c320cb96"),
